@@ -39,14 +39,20 @@ def call_program(rng):
     inline = {f: rng.random() < 0.35 for f in fnames}
     ret = {f: rng.random() < 0.5 for f in fnames}
     proto = rng.random() < 0.4
+    # a third of the programs place some functions in other banks: a call from bank 0 into another bank goes
+    # through a trampoline (JSR Call<name>), a banked function calls only functions of its own bank
+    banked = rng.random() < 0.34
+    bank = {f: (rng.choice([0, 0, 1, 1, 2]) if banked and not inline[f] else 0) for f in fnames}
     calls = {}
     src = ["unsigned char v0, v1, v2, r;"]
     if proto:
         for f in fnames:
             if not inline[f]:
-                src.append("%s %s();" % ("unsigned char" if ret[f] else "void", f))
+                src.append("%s%s %s();" % ("bank%d " % bank[f] if bank[f] else "", "unsigned char" if ret[f] else "void", f))
     def call_stmts(callable_, me):
         out = []
+        if bank.get(me, 0) != 0:
+            callable_ = [g for g in callable_ if bank[g] == bank[me] and not inline[g]]
         for _ in range(rng.randint(0, 3)):
             if not callable_:
                 break
@@ -68,7 +74,7 @@ def call_program(rng):
         body = ["v%d++;" % (i % 3)] + call_stmts(fnames[:i], f)
         if ret[f]:
             body.append("return v%d;" % (i % 3))
-        src.append("%s%s %s() { %s }" % ("inline " if inline[f] else "", "unsigned char" if ret[f] else "void", f, " ".join(body)))
+        src.append("%s%s%s %s() { %s }" % ("bank%d " % bank[f] if bank[f] else "", "inline " if inline[f] else "", "unsigned char" if ret[f] else "void", f, " ".join(body)))
     ints = []
     if rng.random() < 0.4:
         src.append("void interrupt nmi() { %s }" % " ".join(call_stmts([f for f in fnames if not ret[f]], "nmi")))
@@ -126,10 +132,13 @@ def run(chk):
                     continue
                 name = unhx(fn["name"])
                 for l in fn["code"]["lines"]:
-                    if l[0] == "I" and l[1] == "JSR" and unhx(l[2]) not in tree.get(name, []):
+                    tgt = unhx(l[2]) if l[0] == "I" else ""
+                    if tgt.startswith("Call") and tgt[4:] in inline:
+                        tgt = tgt[4:]                # the trampoline of a function in another bank
+                    if l[0] == "I" and l[1] == "JSR" and tgt not in tree.get(name, []):
                         # a JSR inside an expanded inline body belongs to the entry of that (possibly nested) inline callee
                         via_inline = reach({k: [c for c in v if inline.get(c)] for k, v in tree.items()}, [name])
-                        if not any(unhx(l[2]) in tree.get(g, []) for g in via_inline):
+                        if not any(tgt in tree.get(g, []) for g in via_inline):
                             chk.fail("emitted-call-not-in-tree", "%s emits JSR %s which is not in the published tree" % (name, unhx(l[2])), {"source": src, "level": level})
             want = reach(tree, ["main"] + ints)
             got = set(unhx(x) for x in r["inuse"])
